@@ -42,7 +42,11 @@ COMPONENTS["transparency"] = {
              "success and failure results; a Tell after the kill no longer reaches the actor; finally (harness/cmd/remoting/alias.go) Tell / Ask / Ping / Watch / Kill "
              "through refs that carry an ALIAS address of the target system (its bind address behind the proxy, localhost:PORT for 127.0.0.1:PORT): same effect as "
              "through the advertised address, the OnKilled names the advertised address, and the target system sends 0 frames to its own addresses "
-             "(monitors c15-alias-not-delivered, c15-alias-self-send)"),
+             "(monitors c15-alias-not-delivered, c15-alias-self-send); before that, name reuse (harness/cmd/remoting/respawn.go): the actor at /rspN on B is "
+             "addressed remotely (Tell, Ask, Ping, PipeTo with a forwarder on C, Watch from A and C, Kill from A), terminates, a new actor is spawned under the "
+             "same name (2 incarnations quick / 3 thorough; the forwarder on C is re-created too) and every operation is repeated next to the same operation "
+             "through B's local ref (monitors c15-remote-after-respawn:<tell|ask|ping|pipe-target|pipe-forwarder|watch|kill>, c15-local-control); one model "
+             "case per round: the A->B byte stream phase by phase on Remoting/Churn.v (which incarnation received A's messages, which were dead-lettered on B)"),
 }
 
 _M5 = ("M5: TCP is a reliable FIFO byte stream that may split/coalesce arbitrarily and may be cut after any byte; conn.Write delivers all its bytes or a "
@@ -102,8 +106,9 @@ PROPERTIES["C15"] = {
     "coq_files": ["Properties/C15_remote.v", "Properties/C15.v"],
     "rule": ("remote Kill / Watch / Unwatch / Ping / PipeTo rounds between three real systems (12 quick / 120 thorough; poison and non-poison; same-path watchers on "
              "different systems; pass, 1-byte, straddling, random chunking), then alias-address rounds (1 quick / 6 thorough per alias string of the target system: "
-             "Tell, Ask, Ping, Watch, Kill through the alias ref; self-send count of the target system must stay 0); "
-             "no model cases: implementation monitors only (Properties/C15.v composes C12's envelope round trip with C11's framing theorem per operation; "
+             "Tell, Ask, Ping, Watch, Kill through the alias ref; self-send count of the target system must stay 0); name-reuse rounds (3 quick / 24 thorough: kill, "
+             "await termination, re-spawn under the same name, repeat every remote operation beside its local control; one Churn.v model case each, run_remoting op 3); "
+             "otherwise implementation monitors only (Properties/C15.v composes C12's envelope round trip with C11's framing theorem per operation; "
              "Properties/C15_remote.v is the wire-level instance for raw envelopes)"),
     "modelled_not_verified": [
         "Properties/C15.v: the payload codecs are C12's theorems (composed, not assumed); explicit hypotheses in the statements: M9 (user Codec round trip, inside valid_msg), "
@@ -114,6 +119,8 @@ PROPERTIES["C15"] = {
         "a later findMailbox of the stored ref goes through the ref object's mailbox cache for a local ref and through the registry for a rebuilt one: they differ after "
         "name reuse (C15_resolve_identity_witness; the witness state is given, not shown reachable); Core.v has no addresses",
         "what the target system does with a delivered system envelope (kill the subtree, notify watchers) is the actor runtime's business (C06), observed here by monitors only",
+        "name reuse: C15_routing_history_independent is about Remoting/Churn.v's sequential scripts (steps separated by round trips in the harness); the model case of a "
+        "name-reuse round covers the harness messages (XMsg) of A only: system envelopes (Watch, Ping, Kill) in the same stream are judged by the monitors",
         _M5,
     ],
 }
